@@ -3,7 +3,8 @@ import collections
 from .. import lib, runner, elab
 
 PROP = "C19"
-THEOREMS = ["Mux.prepare_spec", "Mux.original_prepare_diverges", "Mux.prepare_total_and_exact", "Mux.elab_prepares", "Mux.elab_idempotent", "Mux.elab_n_times", "Mux.original_second_elaboration_fails"]
+THEOREMS = ["Mux.prepare_spec", "Mux.original_prepare_diverges", "Mux.prepare_total_and_exact", "Mux.elab_prepares", "Mux.elab_idempotent", "Mux.elab_n_times", "Mux.original_second_elaboration_fails",
+            "Mux.later_elaboration_ok_iff_known", "Mux.late_register_refused"]
 IMPORTS = ["SocVerif.Props.C19"]
 
 
